@@ -12,6 +12,8 @@ CONSTANTS
   MaxDyRaise = 1
   IgnoreLate = TRUE
   OfferOnce = TRUE
+  RetRes = TRUE
+  CallSrc = FALSE
   Reduced = FALSE
   DetOrder = FALSE
   Hist = FALSE
